@@ -67,6 +67,7 @@ M = [
     ("C04", "swap-not-reversed-c04", "svg.py", "            for new_el in reversed(new_els):\n                old_el.addnext(new_el)", "            for new_el in new_els:\n                old_el.addnext(new_el)"),
     ("C11", "decompose-a-eq-1", "svg_transform.py", "        if not almost_equal(a, 0):\n            y_prime", "        if not almost_equal(a, 1):\n            y_prime"),
     ("C11", "rect-to-rect-src-empty", "svg_transform.py", "        if src.empty():\n            return cls.identity()", "        if False:\n            return cls.identity()"),
+    ("C09", "arcs-kept-others-converted", "svg_types.py", "            if cmd not in {\"a\", \"A\"}:\n                # no work to do", "            if cmd in {\"a\", \"A\"}:\n                # no work to do"),
     ("C09", "h-to-l-y1", "svg_types.py", "    elif cmd == \"h\":\n        args = (args[0], 0)", "    elif cmd == \"h\":\n        args = (args[0], 1)"),
     ("C09", "v-to-l-x1", "svg_types.py", "    if cmd == \"v\":\n        args = (0, args[0])", "    if cmd == \"v\":\n        args = (1, args[0])"),
     ("C09", "ellipse-second-arc-small", "svg_types.py", "        path.A(rx, ry, cx + rx, cy, large_arc=1)", "        path.A(rx, ry, cx + rx, cy, large_arc=0)"),
